@@ -130,6 +130,12 @@ variantClassMap = {
     't': UInt64,
     'g': Signature,
     'o': ObjectPath,
+    # plain Python types are inferred as these two already; listed so that a
+    # value of another Python type (an int for a DOUBLE property, a str
+    # subclass carrying its own dbusSignature for a STRING one) is coerced to
+    # the declared type as well
+    'd': float,
+    's': str,
 }
 
 
